@@ -86,15 +86,32 @@ def selectToml (fs : FileSys) (cwd directory : Str) : List LookupDir → Except 
     | .ok none => selectToml fs cwd directory rest
 
 /-- `ford.initialize()`: `cwd` the working directory, `addr` the project file as typed on the
-    command line, `md` its lines, `fs` the manifests lying around -/
+    command line, `md` its lines, `fs` the manifests lying around, `files` the readable text files
+    (for the include workaround of the metadata format) -/
 def effectiveAt (T : Tables) (lookups : List LookupDir) (fs : FileSys) (cwd addr pkg : Str) (md : List Str)
-    (config : Option Settings) (cli : Settings) : Except SrcErr (Settings × List Str) :=
+    (config : Option Settings) (cli : Settings) (files : List (Str × List Str) := [])
+    (incRepaired : Bool := false) : Except SrcErr (Settings × List Str) :=
   match selectToml fs cwd (dirname addr) lookups with
   | .error e => .error e
   | .ok toml =>
-    match effective T (projectDirOf cwd addr) pkg toml md config cli with
+    match effective T (projectDirOf cwd addr) pkg toml md config cli
+        { cwd := cwd, directory := dirname addr, files := files, baseFromProject := incRepaired } with
     | .ok r => .ok r
     | .error e => .error (.settings e)
+
+/-- one field of the result (for witnesses) -/
+def effFieldAt (k : String) (r : Except SrcErr (Settings × List Str)) : Option PyVal :=
+  match r with
+  | .ok (s, _) => aget k.toList s
+  | .error _ => none
+
+/-- does the metadata block hold a string option whose value opens with an include statement `{!`?
+    (decidable on the text of the project file; the class in which the include workaround of
+    `load_markdown_settings` does anything at all) -/
+def mdIncludes (T : Tables) (md : List Str) : Bool :=
+  match convertMeta T.schema T.seps (mdRaw (metaPre md).1) with
+  | .ok (kw, _) => opensInclude kw
+  | .error _ => false
 
 end Settings
 end Ford
